@@ -243,7 +243,8 @@ def duration_text(seconds):
     return f'PT{seconds}S'
 
 
-def mk_subscribe(to, notify_to, actions, expires=None, end_to=None, msg_id='urn:uuid:0', notify_ref=None, end_ref=None):
+def mk_subscribe(to, notify_to, actions, expires=None, end_to=None, msg_id='urn:uuid:0', notify_ref=None, end_ref=None,
+                 sep=' '):
     sub = etree.Element(_q('wse', 'Subscribe'))
     if end_to is not None:
         et = etree.SubElement(sub, _q('wse', 'EndTo'))
@@ -262,7 +263,7 @@ def mk_subscribe(to, notify_to, actions, expires=None, end_to=None, msg_id='urn:
         etree.SubElement(sub, _q('wse', 'Expires')).text = duration_text(expires)
     flt = etree.SubElement(sub, _q('wse', 'Filter'))
     flt.set('Dialect', DIALECT_ACTION)
-    flt.text = ' '.join(actions)
+    flt.text = sep.join(actions)  # xs:list of xs:anyURI: any XML whitespace separates the members
     return envelope(WSE_ACTION + 'Subscribe', to, [sub], msg_id)
 
 
